@@ -76,7 +76,7 @@ def _run(ctx):
             "six item groups are empty and the tokens before|after the boundary; per class %s is replayed on a real "
             "server with real data whose rendering crosses 64000 bytes exactly at that token (verified from the chunk "
             "sizes of the response); (b) sweeps: every n in %s route origins and %s router keys, reset, one-step delta "
-            "(announce n, withdraw the previous n) and every third step a merged two-step delta; (c) protocol: 503 "
+            "(announce n, withdraw the previous n) and every third step a merged two-step delta%s; (c) protocol: 503 "
             "before the first run, HEAD, foreign session, future / half-space / evicted serial (full reset), current, "
             "previous, oldest kept serial. Oracle per response: one JSON document (serde_json, no trailing data), "
             "reset flag, session, serial, fromSerial, announced and withdrawn lists equal as multisets to the real "
@@ -85,7 +85,9 @@ def _run(ctx):
             "boundary) resp. (sweep, n)."
             % ("2 cases" if ctx.thorough else "1 case of up to 3 classes per (stream, boundary tokens) group",
                "0..1500" if ctx.thorough else "{0,1,2} and +-6 around the first two chunk boundaries of",
-               "0..700" if ctx.thorough else "the same for"))
+               "0..700" if ctx.thorough else "the same for",
+               "; n ASPAs then none for n within 3 of the first boundary of the announced and of the withdrawn list"
+               if ctx.thorough else ""))
     return lib.finish(ctx, r, rule, exhaustive=False)
 
 
@@ -94,7 +96,9 @@ _NOTE = ("TLC checks JsonDelta.tla (both stream state machines transcribed from 
          "resetting it, per-call first flag in the snapshot stream, >= for >, scanning loop that stops). The replay "
          "places real chunk boundaries at every token class the model distinguishes and sweeps item counts across the "
          "first chunk boundaries. Trusted: serde_json as JSON validator, the harness' token scanner for locating "
-         "boundaries (placement only), ASPA coverage limited to <= 3 ASPA items per list (provider lists up to ~5800).")
+         "boundaries (placement only). ASPAs: <= 3 ASPA items per list in the boundary cases (provider lists up to ~5800 "
+         "entries); the thorough tier adds data sets of 525-573 ASPAs (first chunk boundary of the announced and of the "
+         "withdrawn list) through the real engine.")
 
 CHECKS = {
     "C18": {
